@@ -652,6 +652,17 @@ def find_bad(pid, res):
             case = '%s\t%s' % (wit.get('kind', 'game'), esc(wit.get('text', '')))
             obs = V.run_impl('lichess', [case])[0]
             res.violation('lichess', case, 'the documented field %s is decoded' % '.'.join(w.get('path', [])), obs, 'spec', w.get('reason', 'documented shape not decodable'))
+    if pid == 'C11':
+        rc, out = V.sh(['python3', os.path.join(V.ROOT, 'checks', 'c11_find_bad.py'), dump])
+        line = out.strip().split('\n')[-1] if out.strip() else 'null'
+        if line != 'null':
+            w = json.loads(line)
+            fens = w.get('fens') or (w.get('witness') or {}).get('fens')
+            if fens and len(fens) == 2:
+                ev = V.run_impl('eval', [fens[0] + '\t1', fens[1] + '\t1'])
+                res.violation('eval', fens[0] + ' || ' + fens[1], 'opposite static evaluations', ' / '.join(ev), 'property', 'piece-square tables are not mirror images: ' + str(w.get('reason', w))[:300])
+            else:
+                res.violation('eval-tables', json.dumps(w)[:1200], None, None, 'coq', 'piece-square table obligation pst_mirror_ok fails: ' + str(w.get('reason', ''))[:300])
     if pid == 'C10':
         rc, out = V.sh("grep -n 'MAX_HALF_MOVES' %s" % os.path.join(V.REPO, 'engine_core/src/engine/heuristic.rs'))
         res.notes.append('MAX_HALF_MOVES in source: ' + out.strip()[:200])
@@ -684,6 +695,9 @@ def run_check(pid, tier, seed):
         res.violation('proof', None, None, None, 'coq', 'proof obligation(s) of %s no longer check: %s' % (pid, ' ; '.join(proofs['errors'])[:3000]), suffix='no-failing-input-found')
     elif proofs['errors']:
         res.notes.append('proof obligations broken: ' + ' ; '.join(proofs['errors'])[:2000])
+    for x in V.known_findings():
+        if x.get('property') == pid:
+            res.known.append('class=%s witness=%s %s' % (x.get('class'), x.get('witness'), x.get('text')))
     rule = extra.pop('rule', '')
     extra['extraction_crosscheck_lines'] = res.vm_lines
     if tier == 'thorough':
